@@ -37,7 +37,7 @@ def resp_type(rng):
     understands `Result<Path, _>` (a tuple there makes the macro panic; see DESIGN limits)."""
     for _ in range(50):
         t = T.random_type(rng)
-        if t.kind != "tuple":
+        if t.kind != "tuple" and not getattr(t, "qself", False):
             return t
     return T.U32
 
@@ -213,6 +213,8 @@ def decorate(rng, prog):
     n = 0
     for part in prog["parts"]:
         for h in part["handlers"]:
+            if part["id"] == "c" and prog["error"] == "MonErr" and h["kind"] != "reply" and h["ret_err"] == "own" and rng.random() < 0.12:
+                h["ret_err"] = "lookup"
             if part["id"] != "c" and h["kind"] in KINDS_ENUM and rng.random() < 0.25:
                 h["provided"] = True
             if h["kind"] in KINDS_ENUM and rng.random() < 0.12:
@@ -601,7 +603,7 @@ def gen_generic_program(rng, name, n_generics=None, n_ifaces=None, iface_assoc=T
             if usable and rng.random() < 0.5:
                 n = rng.choice(sorted(resp_only) or usable)
                 t = _wrap_param(rng, gp[n])
-                if t.kind != "tuple":
+                if t.kind != "tuple" and not getattr(t, "qself", False):
                     h["resp_ti"] = intern_type(p, t)
                     [h.pop(k_, None) for k_ in ("resp_explicit", "resp_decl_ti", "resp_literal")]
     # make sure a resp_only parameter really is used by some query
@@ -656,7 +658,7 @@ def gen_generic_program(rng, name, n_generics=None, n_ifaces=None, iface_assoc=T
                     a["ti"] = intern_type(p, _wrap_param(rng, at[rng.choice(an)]))
             if h["kind"] == "query" and rng.random() < 0.5:
                 t = _wrap_param(rng, at[rng.choice(an)])
-                if t.kind != "tuple":
+                if t.kind != "tuple" and not getattr(t, "qself", False):
                     h["resp_ti"] = intern_type(p, t)
                     [h.pop(k_, None) for k_ in ("resp_explicit", "resp_decl_ti", "resp_literal")]
     # a concrete type whose *path ends in* the name of a parameter (svmon::named::ExecT) is not a use of that parameter
@@ -683,5 +685,5 @@ def gen_generic_program(rng, name, n_generics=None, n_ifaces=None, iface_assoc=T
         for part in p["parts"][1:]:
             part["error"] = "ErrT"
         for h in handlers(p):
-            h["ret_err"] = "own" if rng.random() < 0.8 else h["ret_err"]
+            h["ret_err"] = "own" if (rng.random() < 0.8 or h["ret_err"] == "lookup") else h["ret_err"]
     return p
